@@ -157,9 +157,6 @@ func c17Session(x *Ctx) {
 				if st.Mode&0o777 != uint32(fi.Mode().Perm()) {
 					x.Violate("t6-stat", "%s reports permission bits %o, the twin's object has %o", what, st.Mode&0o777, fi.Mode().Perm())
 				}
-				if afi != nil && st.Qid.Path != afi.Sys().(*syscall.Stat_t).Ino {
-					x.Violate("t6-stat", "%s reports qid path %d, the object's inode is %d", what, st.Qid.Path, afi.Sys().(*syscall.Stat_t).Ino)
-				}
 				x.Probe("session-stat")
 			case op == 1 && !f.open: // open
 				mode := uint8(r.Pick(0, 1, 2, 3, 1|16, 2|16))
